@@ -285,7 +285,8 @@ def go_side(ctx, results, scheds, st, baseline=None, hand_built=True):
             report("run:resolver-error", "the resolver failed with %r; schedule %s of plan %s" % (r["err"], r["id"], plan), r)
             continue
         if r.get("probe_moved"):
-            report("run:lock", "a request entered a [db] section (ld.prepared / ld.merging) while another request was parked inside one; "
+            report("run:lock", "a request entered a [db] section (ld.prepared / ld.merging / the errored-fetch bookkeeping before ld.loaded) while another "
+                               "request was parked inside one; "
                                "schedule %s of plan %s" % (r["id"], plan), r)
         if hand_built:
             nleaves = len([x for x in json.dumps(s["tree"]).split('"k": "F"')]) - 1
